@@ -12,33 +12,34 @@ Theorem reachable_inv ops ps : Inv (bstate_of (run_ops ps b_init ops)).
 Proof. split; [apply run_ops_inv_shape, inv_shape_init | apply run_ops_inv_struct, inv_struct_init]. Qed.
 
 (* ---------- item updates that keep type, attribute count and shape ---------- *)
-Definition item_ext (it it' : item) : Prop := isig it' = isig it /\ (item_shape_ok it -> item_shape_ok it').
+Definition iid (it : item) : list Z * option Z * Z := (i_name it, i_origin it, i_copy it).
+Definition item_ext (it it' : item) : Prop := isig it' = isig it /\ (item_shape_ok it -> item_shape_ok it') /\ iid it' = iid it.
 
 Lemma item_ext_refl it : item_ext it it.
-Proof. split; auto. Qed.
+Proof. repeat split; auto. Qed.
 Lemma item_ext_trans a b c : item_ext a b -> item_ext b c -> item_ext a c.
-Proof. intros [E1 S1] [E2 S2]. split; [congruence | auto]. Qed.
+Proof. intros (E1 & S1 & I1) (E2 & S2 & I2). split; [congruence|]. split; [auto | congruence]. Qed.
 
 Definition mv_at (it : item) (idx : nat) : bool := ad_mv (nth idx (td_attrs (tdef_at (i_ty it))) dummy_adef).
 Definition not_list (v : spv) : Prop := match v with SPList _ => False | _ => True end.
 
 Lemma put_value_ext it idx v : (mv_at it idx = false -> not_list v) -> item_ext it (put_value it idx v).
 Proof.
-  intros Hv. split.
+  intros Hv. split; [|split; [|reflexivity]].
   - unfold isig, put_value. cbn [i_ty i_attrs]. rewrite length_upd. reflexivity.
   - intros Hok. unfold item_shape_ok, put_value. cbn [i_ty i_attrs]. apply shape_upd_value; [exact Hok | exact Hv | right; exact I].
 Qed.
 
 Lemma put_units_ext it idx u : item_ext it (put_units it idx u).
 Proof.
-  split.
+  split; [|split; [|reflexivity]].
   - unfold isig, put_units. cbn [i_ty i_attrs]. rewrite length_upd. reflexivity.
   - intros Hok. unfold item_shape_ok, put_units. cbn [i_ty i_attrs]. apply shape_upd_value; [exact Hok | | right; exact I].
     intros Hmv. apply (Hok idx Hmv).
 Qed.
 
 Lemma put_cast_ext it c : item_ext it (put_cast it c).
-Proof. split; [reflexivity | intros H; exact H]. Qed.
+Proof. split; [reflexivity | split; [intros H; exact H | reflexivity]]. Qed.
 
 Lemma assign_value_if_none_ext it idx v : (mv_at it idx = false -> not_list v) -> item_ext it (assign_value_if_none it idx v).
 Proof. intros Hv. unfold assign_value_if_none. destruct (fst (get_attr it idx)); [apply put_value_ext; exact Hv | apply item_ext_refl | apply item_ext_refl]. Qed.
@@ -52,7 +53,7 @@ Proof. intros E. unfold mv_at. apply (f_equal fst) in E. cbn in E. rewrite E. re
 (* ---------- state updates ---------- *)
 Lemma set_item_inv st i it : Inv st -> item_ext (item_at st i) it -> Inv (set_item st i it).
 Proof.
-  intros [Hs Ht] [E S]. split.
+  intros [Hs Ht] (E & S & _). split.
   - apply inv_shape_set_item; [exact Hs|]. apply S. apply Hs.
   - apply set_item_struct; assumption.
 Qed.
@@ -326,7 +327,7 @@ Proof.
   assert (Hall : Forall (in_set_ty (map isig (b_items st)) ty) (s_items s)).
   { destruct Hi as [_ [_ Hsets _]]. unfold s, ty, set_at.
     destruct (Nat.lt_ge_cases sid (length (b_sets st))) as [Hlt|Hge].
-    - rewrite Forall_forall in Hsets. exact (Hsets _ (nth_In _ _ Hlt)).
+    - rewrite Forall_forall in Hsets. exact (proj1 (Hsets _ (nth_In _ _ Hlt))).
     - rewrite nth_overflow by exact Hge. constructor. }
   destruct (fold_objs ty _ _ _ _ _ Hfold Hi Hall) as (Hi1 & Es & os & b' & -> & Hos & Hlen & Hok).
   cbn [app] in *.
@@ -603,4 +604,211 @@ Proof.
   intros st H cfg.
   assert (Hi : Inv st) by (apply reachable_inv_actions; split; [apply inv_shape_init | apply inv_struct_init]).
   destruct (write_readable hc st w st' bs Hi H) as (A & B & _). split; assumption.
+Qed.
+
+(* ---------- C15 over the API: once the records exist, no size can make the write fail ---------- *)
+Theorem write_total_after_records hc st w st1 st2 perlf st3 recs :
+  Inv st ->
+  check_all hc 0 (b_lfs st) st = OK st1 -> setup_all hc w 0 (b_lfs st1) st1 [] = (st2, OK perlf) ->
+  records_all 0 perlf st2 [] = (st3, OK recs) ->
+  check_vrl (w_vrl w) = true -> sul_valid {| sul_seq := w_seq w; sul_vrl := w_vrl w; sul_id := w_ident w |} ->
+  exists bs, write hc st w = (st3, OK bs).
+Proof.
+  intros Hi H1 H2 H3 Hv Hs. unfold write. rewrite H1, H2, Hv. cbn [negb].
+  destruct (sul_bytes_total _ Hs) as [lab Hl]. rewrite Hl, H3.
+  pose proof (check_all_inv _ _ _ _ _ H1 Hi) as Hi1.
+  pose proof (setup_all_inv hc w (b_lfs st1) 0%nat st1 [] Hi1) as Hi2. rewrite H2 in Hi2. cbn [fst] in Hi2.
+  destruct (records_all_ok perlf 0%nat st2 [] Hi2 ltac:(constructor)) as [_ Hr]. rewrite H3 in Hr. cbn [snd] in Hr.
+  specialize (Hr recs eq_refl).
+  assert (Hwf : forallb wf_rec recs = true).
+  { apply forallb_forall. intros r Hin. rewrite Forall_forall in Hr. apply (Hr r Hin). }
+  destruct (write_file_total {| sul_seq := w_seq w; sul_vrl := w_vrl w; sul_id := w_ident w |} recs Hv Hs Hwf) as [bs Hb]. exists bs. rewrite Hb. reflexivity.
+Qed.
+
+(* C02 over the API: the output of DLISFile.write is bracketed *)
+Corollary api_output_bracketed l ps hc w st' bs :
+  let st := snd (run_actions ps b_init l) in
+  write hc st w = (st', OK bs) ->
+  let cfg := {| sul_seq := w_seq w; sul_vrl := w_vrl w; sul_id := w_ident w |} in
+  exists vrs recs, parse_file cfg bs = Some vrs /\ Bracketed (concat vrs) recs /\ read_records cfg bs = Some recs.
+Proof.
+  intros st H cfg.
+  assert (Hi : Inv st) by (apply reachable_inv_actions; split; [apply inv_shape_init | apply inv_struct_init]).
+  destruct (write_records _ _ _ _ _ H Hi) as (recs & Hr & Hw). fold cfg in Hw.
+  assert (Hwf : forallb wf_rec recs = true).
+  { apply forallb_forall. intros r Hin. rewrite Forall_forall in Hr. apply (Hr r Hin). }
+  destruct (writer_bracketed cfg recs bs Hwf Hw) as (vrs & Hp & Hb).
+  exists vrs, (filter nonempty_body recs). split; [exact Hp|]. split; [exact Hb | exact (read_write_file cfg recs bs Hwf Hw)].
+Qed.
+
+(* ==================================================================================================================
+   Faithfulness of one explicitly formatted record: it decodes to exactly the set as it stands when the record is
+   produced — the type and name of the set, and for every object its identity and, attribute by attribute, ABSATR or
+   the count / representation code / units / values of the stored attribute state (attr_matches).
+   ================================================================================================================== *)
+
+(* updates of OTHER items that keep identities do not change what an object looks like to the encoder *)
+Lemma ident_of_set_item st k it' : iid it' = iid (item_at st k) -> i_ty it' = i_ty (item_at st k) ->
+  forall j, ident_of (set_item st k it') j = ident_of st j.
+Proof.
+  intros Hid Hty j. unfold ident_of, item_at, set_item. cbn [b_items].
+  destruct (Nat.eq_dec k j) as [->|Hne]; [|rewrite nth_upd_other by exact Hne; reflexivity].
+  destruct (Nat.lt_ge_cases j (length (b_items st))) as [Hlt|Hge].
+  - rewrite nth_upd_same by exact Hlt. unfold iid, item_at in *. injection Hid as -> -> ->. rewrite Hty. reflexivity.
+  - rewrite !nth_overflow; [reflexivity | exact Hge | rewrite length_upd; exact Hge].
+Qed.
+
+Lemma to_aval_ext st st' : (forall j, ident_of st' j = ident_of st j) -> forall v, to_aval st' v = to_aval st v.
+Proof. intros H v. destruct v; try reflexivity. cbn [to_aval]. rewrite H. reflexivity. Qed.
+
+Lemma to_nval_ext st st' : (forall j, ident_of st' j = ident_of st j) -> forall n, to_nval st' n = to_nval st n.
+Proof.
+  intros H. fix IH 1. intros [v|l]; cbn [to_nval].
+  - f_equal. apply to_aval_ext. exact H.
+  - f_equal. revert l. fix IHl 1. intros [|x r]; [reflexivity|]. f_equal; [apply IH | apply IHl].
+Qed.
+
+Lemma to_attr_ext st st' ad vu : (forall j, ident_of st' j = ident_of st j) -> to_attr st' ad vu = to_attr st ad vu.
+Proof.
+  intros H. unfold to_attr. f_equal. unfold to_pval. destruct (fst vu); [reflexivity | f_equal; apply to_aval_ext; exact H|].
+  f_equal. apply map_ext. intros n. apply to_nval_ext. exact H.
+Qed.
+
+Lemma obj_of_other st k it' i : k <> i -> item_ext (item_at st k) it' -> obj_of (set_item st k it') i = obj_of st i.
+Proof.
+  intros Hne (Es & _ & Hid).
+  assert (Hident : forall j, ident_of (set_item st k it') j = ident_of st j).
+  { apply ident_of_set_item; [exact Hid | apply (f_equal fst) in Es; exact Es]. }
+  unfold obj_of. rewrite Hident. f_equal.
+  assert (Eit : item_at (set_item st k it') i = item_at st i) by (unfold item_at, set_item; cbn [b_items]; apply nth_upd_other; exact Hne).
+  rewrite Eit. apply map_ext. intros [ad vu]. apply to_attr_ext. exact Hident.
+Qed.
+
+(* the fold again, now remembering WHICH objects were encoded: with pairwise distinct items they are the objects of the
+   final state *)
+Lemma fold_objs_exact ty : forall items st bs0 st' bs,
+  fold_left obj_step items (OK (st, bs0)) = OK (st', bs) ->
+  Inv st -> Forall (in_set_ty (map isig (b_items st)) ty) items -> NoDup items ->
+  exists b', bs = bs0 ++ b' /\ enc_list enc_obj (map (obj_of st') items) = OK b'
+             /\ (forall j, ~ In j items -> obj_of st' j = obj_of st j).
+Proof.
+  induction items as [|i items IH]; intros st bs0 st' bs H Hi Hall Hnd.
+  - inv H. exists []. rewrite app_nil_r. split; [reflexivity|]. split; [reflexivity | intros; reflexivity].
+  - cbn [fold_left] in H. unfold obj_step at 2 in H. cbn [bind] in H.
+    destruct (run_checks st (sync_repr_code (item_at st i))) as [it|e] eqn:Erc; cbn [bind] in H; [|rewrite fold_err in H by apply obj_step_err; discriminate].
+    destruct (enc_obj (obj_of (set_item st i it) i)) as [b|e] eqn:Eo; cbn [bind] in H; [|rewrite fold_err in H by apply obj_step_err; discriminate].
+    assert (Ext : item_ext (item_at st i) it) by (eapply item_ext_trans; [apply sync_repr_code_ext | eapply run_checks_ext; exact Erc]).
+    assert (Hi2 : Inv (set_item st i it)) by (apply set_item_inv; assumption).
+    assert (Es : map isig (b_items (set_item st i it)) = map isig (b_items st)) by (apply set_item_sigs; apply Ext).
+    apply Forall_cons_iff in Hall. destruct Hall as [_ Hrest]. inversion Hnd as [|? ? Hni Hnd']; subst.
+    destruct (IH _ _ _ _ H Hi2 ltac:(rewrite Es; exact Hrest) Hnd') as (b' & -> & Hos & Hstable).
+    exists (b ++ b'). rewrite app_assoc. split; [reflexivity|]. split.
+    + cbn [map enc_list]. rewrite (Hstable i Hni), Eo. cbn [bind]. rewrite Hos. reflexivity.
+    + intros j Hj. rewrite Hstable by (intros Hin; apply Hj; right; exact Hin).
+      apply obj_of_other; [intros ->; apply Hj; left; reflexivity | exact Ext].
+Qed.
+
+Lemma fold_objs_sets : forall items st bs0 st' bs, fold_left obj_step items (OK (st, bs0)) = OK (st', bs) -> b_sets st' = b_sets st.
+Proof.
+  induction items as [|i l IH]; intros st bs0 st' bs H; [inv H; reflexivity|].
+  cbn [fold_left] in H. unfold obj_step at 2 in H. cbn [bind] in H.
+  destruct (run_checks st (sync_repr_code (item_at st i))) as [it|e]; cbn [bind] in H; [|rewrite fold_err in H by apply obj_step_err; discriminate].
+  destruct (enc_obj (obj_of (set_item st i it) i)) as [b|e]; cbn [bind] in H; [|rewrite fold_err in H by apply obj_step_err; discriminate].
+  rewrite (IH _ _ _ _ H). reflexivity.
+Qed.
+
+Definition eset_of (st : bstate) (sid : nat) : eset :=
+  let s := set_at st sid in
+  {| e_type := td_settype (tdef_at (s_ty s)); e_name := s_name s; e_objs := map (obj_of st) (s_items s) |}.
+
+Theorem enc_sset_faithful st sid st' r :
+  enc_sset st sid = OK (st', r) -> Inv st -> s_items (set_at st sid) <> [] ->
+  exists d, dec_set (lr_body r) = Some d /\ set_matches (eset_of st' sid) d.
+Proof.
+  unfold enc_sset. cbv zeta. intros H Hi Hne.
+  set (s := set_at st sid) in *. set (ty := s_ty s) in *.
+  change (fun (acc : res (bstate * bytes)) (i : nat) => _) with obj_step in H.
+  bind_inv H. destruct a as [st1 objs]. rename H0 into Hfold.
+  assert (Hall : Forall (in_set_ty (map isig (b_items st)) ty) (s_items s)).
+  { destruct Hi as [_ [_ Hsets _]]. unfold s, ty, set_at.
+    destruct (Nat.lt_ge_cases sid (length (b_sets st))) as [Hlt|Hge].
+    - rewrite Forall_forall in Hsets. exact (proj1 (Hsets _ (nth_In _ _ Hlt))).
+    - rewrite nth_overflow by exact Hge. constructor. }
+  assert (Hnd : NoDup (s_items s)) by (apply inv_set_nodup; apply Hi).
+  destruct (fold_objs ty _ _ _ _ _ Hfold Hi Hall) as (Hi1 & Es & os & b0 & E0 & Hos0 & Hlen & Hok).
+  destruct (fold_objs_exact ty _ _ _ _ _ Hfold Hi Hall Hnd) as (b' & -> & Hos & _). cbn [app] in *.
+  (* the set of st1 is the set of st: only items were updated *)
+  pose proof (fold_objs_sets _ _ _ _ _ Hfold) as Hsets.
+  assert (Hset1 : set_at st1 sid = s) by (unfold set_at, s; rewrite Hsets; reflexivity).
+  destruct (s_items s) as [|i0 rest] eqn:Eit; [congruence|].
+  bind_inv H. rename a into sc, H0 into Hsc. bind_inv H. rename a into tb, H0 into Htb. apply OK_inj_ in H. injection H as <- <-. cbn [lr_body].
+  (* labels of the template written before the checks = labels of the first object after them *)
+  pose proof Hall as Hall0. apply Forall_cons_iff in Hall. destruct Hall as [[Hlt0 Hty0] _].
+  assert (Hi0 : (i0 < length (b_items st))%nat) by (rewrite map_length in Hlt0; exact Hlt0).
+  assert (Hty0' : i_ty (item_at st i0) = ty) by (rewrite <- Hty0, sig_nth; reflexivity).
+  pose proof (obj_of_ok st i0 Hi Hi0) as (_ & _ & Hlab0). rewrite Hty0' in Hlab0.
+  assert (Hi01 : (i0 < length (b_items st1))%nat) by (rewrite <- (map_length isig), Es, map_length; exact Hi0).
+  assert (Hty01 : i_ty (item_at st1 i0) = ty) by (rewrite <- Hty0, <- Es, sig_nth; reflexivity).
+  pose proof (obj_of_ok st1 i0 Hi1 Hi01) as Hok0. rewrite Hty01 in Hok0.
+  assert (Htb' : enc_list enc_attr_tmpl (o_attrs (obj_of st1 i0)) = OK tb).
+  { rewrite <- Htb. apply tmpl_labels. destruct Hok0 as (_ & _ & Hl). congruence. }
+  assert (Hes : eset_of st1 sid = {| e_type := td_settype (tdef_at ty); e_name := s_name s; e_objs := map (obj_of st1) (i0 :: rest) |}).
+  { unfold eset_of. rewrite Hset1. fold ty. rewrite Eit. reflexivity. }
+  rewrite Hes.
+  set (es := {| e_type := td_settype (tdef_at ty); e_name := s_name s; e_objs := map (obj_of st1) (i0 :: rest) |}).
+  assert (Henc : enc_set es = OK (sc ++ tb ++ b')).
+  { unfold enc_set, es. cbn [e_objs map]. change (enc_set_comp _) with (enc_set_comp {| e_type := td_settype (tdef_at ty); e_name := s_name s; e_objs := [] |}).
+    rewrite Hsc. cbn [bind]. rewrite Htb'. cbn [bind]. cbn [map] in Hos. rewrite Hos. reflexivity. }
+  assert (Hwf : wf_set es).
+  { unfold wf_set, es. cbn [e_objs map]. split.
+    - destruct Hok0 as (_ & _ & Hl). pose proof (labels_nonnil ty) as Hn. rewrite <- Hl in Hn. rewrite Forall_map in Hn. exact Hn.
+    - assert (Hobjs : Forall (obj_ok ty) (map (obj_of st1) (i0 :: rest))).
+      { apply Forall_forall. intros o Ho. apply in_map_iff in Ho. destruct Ho as (j & <- & Hj).
+        assert (Hjall : in_set_ty (map isig (b_items st1)) ty j).
+        { rewrite Es. rewrite Forall_forall in Hall0. exact (Hall0 j Hj). }
+        destruct Hjall as [Hjl Hjt]. rewrite map_length in Hjl. pose proof (obj_of_ok st1 j Hi1 Hjl) as Ho.
+        replace (i_ty (item_at st1 j)) with ty in Ho; [exact Ho|]. rewrite <- Hjt, sig_nth. reflexivity. }
+      cbn [map] in Hobjs. eapply Forall_impl; [|exact Hobjs]. intros o (Ho1 & Ho2 & _). destruct Hok0 as (H01 & _). split; [congruence | exact Ho2]. }
+  destruct (enc_set_dec es _ Hwf ltac:(discriminate) Henc) as (d & Hd & Hm). exists d. split; [exact Hd | exact Hm].
+Qed.
+
+(* ---------- C16 over the API: the no-format records of a logical file ---------- *)
+Definition nofmt_rel (st : bstate) (call : raw * payload_in) (r : lrec) : Prop :=
+  exists i pl b, fst call = RRef i /\ payload_of (snd call) = OK pl
+                 /\ nofmt_body (snd (ident_of st i)) pl = OK b /\ r = {| lr_eflr := false; lr_type := 1; lr_body := b |}.
+
+Theorem lf_nofmt_records st f frames st' recs :
+  lf_records st f frames = OK (st', recs) ->
+  exists pre nf fd, recs = pre ++ nf ++ fd
+    /\ Forall (fun r => lr_eflr r = true) pre
+    /\ Forall2 (nofmt_rel st') (l_nofmt f) nf
+    /\ Forall (fun r => lr_eflr r = false /\ lr_type r = 0) fd.
+Proof.
+  unfold lf_records. intros H. bind_inv H. rename a into fh. bind_inv H. destruct a as [st1 erecs]. rename H1 into Hfold.
+  bind_inv H. rename a into nf, H1 into Hnf. bind_inv H. rename a into fd, H1 into Hfd. inv H.
+  exists erecs, nf, fd. split; [reflexivity|].
+  split.
+  { change (fun (acc : res (bstate * list lrec)) (sid : nat) => _) with sets_step in Hfold.
+    destruct (fold_sets_eflr _ _ _ _ _ Hfold) as (er & -> & Her & _). apply Forall_app. split; [constructor; [reflexivity | constructor] | exact Her]. }
+  split.
+  - clear -Hnf. revert nf Hnf. induction (l_nofmt f) as [|[obj p] l IH]; intros nf H; [inv H; constructor|].
+    destruct obj; try discriminate. destruct (nth_error (b_items st') i); [|discriminate].
+    bind_inv H. bind_inv H. bind_inv H. inv H. constructor; [|apply IH; assumption].
+    unfold nofmt_rec in H1. bind_inv H1. inv H1. exists i, a, a2. cbn [fst snd]. repeat split; assumption.
+  - clear -Hfd. revert fd Hfd. induction frames as [|[fr rows] l IH]; intros fd H; [inv H; constructor|].
+    bind_inv H. bind_inv H. inv H. apply Forall_app. split; [|apply IH; assumption].
+    clear -H0. revert H0. generalize 1. revert a. induction rows as [|row rows IHr]; intros a i H; [inv H; constructor|].
+    cbn [frame_recs] in H. bind_inv H. bind_inv H. inv H. constructor; [|eapply IHr; eassumption].
+    unfold fdata_rec in H0. bind_inv H0. inv H0. split; reflexivity.
+Qed.
+
+Lemma nth_error_upd_same {A} : forall (l : list A) n x y, nth_error l n = Some y -> nth_error (upd l n x) n = Some x.
+Proof. induction l as [|h t IH]; intros [|n] x y H; try discriminate; cbn [upd nth_error] in *; [reflexivity | eapply IH; exact H]. Qed.
+
+Theorem nofmt_call_appends st l obj p st' :
+  add_nofmt_data st l obj p = (st', Accepted None) ->
+  exists f f', lf_at st l = Some f /\ lf_at st' l = Some f' /\ l_nofmt f' = l_nofmt f ++ [(obj, p)].
+Proof.
+  unfold add_nofmt_data. destruct (lf_at st l) as [f|] eqn:Hf; intros H; inv H.
+  exists f. eexists. split; [reflexivity|]. split; [unfold lf_at, set_lf in *; cbn [b_lfs]; eapply nth_error_upd_same; exact Hf | reflexivity].
 Qed.
